@@ -3,6 +3,13 @@
 
 PLAN = {
     "C01": [dict(test="TestC01", quick=(2500, 16), thorough=(60000, 16), timeout_thorough=7200)],
+    "C03": [dict(test="TestC03", quick=(2500, 16), thorough=(60000, 16), timeout_thorough=7200)],
+    "C04": [dict(test="TestC04", quick=(2500, 16), thorough=(60000, 16), timeout_thorough=7200)],
+    "C10": [dict(test="TestC10", quick=(2500, 16), thorough=(60000, 16), timeout_thorough=7200)],
+    "C18": [
+        dict(test="TestC18Dense", kind="plain", quick=(0, 1), thorough=(0, 1)),
+        dict(test="TestC18Leader", quick=(30000, 4), thorough=(1500000, 8)),
+    ],
     "C06": [
         dict(test="TestC06Exhaustive", kind="plain", quick=(0, 1), thorough=(0, 1)),
         dict(test="TestC06Random", quick=(15000, 4), thorough=(300000, 8)),
@@ -10,7 +17,16 @@ PLAN = {
     ],
 }
 
+SIM_RULE = ("cases = generated executions of the deterministic cluster simulator over real node code: committee size 4..7, weight classes (unit, small, one heavy, 1..100), generated leader order and per-height rotation, "
+            "Byzantine key set of weight <= f (biased to maximal), 0..2 outsiders with valid keys, optional crashed node, 1..3 heights; attack-shaped prelude (hold a message class to a node set, run, drop, timeouts), "
+            "then 5..150 swarm-weighted steps of deliver/run/drop/dup/timeout(s)/hold/release/sync/adversary injection (strategies pp, prepare, commit, vc, nv with presets, replay/re-wrap, support), optional healing epilogue. ")
+
 RULES = {
+    "C01": SIM_RULE + "Oracle: <=1 block hash per height over correct nodes' commit callbacks. Non-trivial = >=1 correct commit AND (a view > 0 was entered OR a Byzantine/outsider message was stored by a correct node). Distinct = hash of (config, abstracted action trace).",
+    "C03": SIM_RULE + "Oracle at every correct commit callback: strict ValidateBlockConsensus on another correct node with the committing term's prev block/proof returns nil, the reference validator accepts, the block satisfies the proof's hash. Non-trivial = at commit time the committing node's commit log held a COMMIT from a Byzantine member/outsider or from another view, or the commit is in a view > 0.",
+    "C04": SIM_RULE + "Oracle at every correct commit: block height = h, block valid flag set (a block every correct validator rejects is never committed), block satisfies the certified hash, a PREPREPARE for that hash and view signed by the view's leader exists in the history, and some correct member's ValidateBlockProposal approved it or a correct member proposed it. Non-trivial = a consumer-invalid proposal was delivered to a correct node and some correct node committed.",
+    "C10": SIM_RULE + "Oracle over each correct node's send stream joined with its reference-validated inbox: <=1 proposal/PREPARE/COMMIT hash per (h,v), PREPARE only for a delivered proposal of that view's leader and never by the leader, COMMIT only with a prepared certificate or commit quorum for exactly (v,hash), VIEW_CHANGE views strictly increasing, no PREPREPARE/PREPARE below the current view. Non-trivial = two different proposals for one (h,v) were delivered, or a duplicated/replayed delivery, or a commit quorum before being prepared.",
+    "C18": "cases = (committee size n in 4..64, view): dense 0..4n, powers of two +-1, neighbourhoods of 2^31, 2^32, 2^63, 2^64-1-k, random 64-bit; oracle VerifLeaderOf(view, committee) == committee[view mod n] in uint64, no panic, and every window of n consecutive views has n distinct leaders. Non-trivial = view >= 2^31 or within n of 0 or a multiple of n. Distinct = (n, view).",
     "C06": "cases = (weight vector, id list A, id list B): exhaustive small vectors x all subset pairs, random vectors n<=16 with weight classes up to 2^64, and boundary-shaped committees [F,W-F],[F+1,W-F-1],[F+1,F+1,W-2F-2],[F,F,W-2F],[F,1,W-F-1] for W around 7..2^64; id lists include duplicates and non-members. Non-trivial = total weight > 2^53 or weight(A) within 1 of f or Q. Distinct = distinct (weights, A, B).",
 }
 
@@ -18,6 +34,13 @@ ASSUMPTIONS = {
     "*": [
         "trusted base: the fakes in /verif/fakes (HMAC key registry with unforgeable signatures, block/validator model, membership, recording storage wrapper, virtual election scheduler), the reference model in /verif/ref, the Go runtime and pgregory.net/rapid",
         "exploration only: 'held on everything explored', never absence of violations",
+    ],
+    "C03": [dict(test="TestC03", quick=(2500, 16), thorough=(60000, 16), timeout_thorough=7200)],
+    "C04": [dict(test="TestC04", quick=(2500, 16), thorough=(60000, 16), timeout_thorough=7200)],
+    "C10": [dict(test="TestC10", quick=(2500, 16), thorough=(60000, 16), timeout_thorough=7200)],
+    "C18": [
+        dict(test="TestC18Dense", kind="plain", quick=(0, 1), thorough=(0, 1)),
+        dict(test="TestC18Leader", quick=(30000, 4), thorough=(1500000, 8)),
     ],
     "C06": ["committee ids pairwise distinct and total weight < 2^64 (the property's own quantifier); the attainability law is checked for W >= 1"],
 }
